@@ -114,20 +114,23 @@ pub struct Io {
     pub rfaults: Vec<(usize, Fault)>,
     pub wfaults: Vec<(usize, Fault)>,
     pub ffaults: Vec<(usize, ErrorKind)>,
+    /// the sink implements write_vectored natively (short counts across slices)
+    pub vectored: bool,
 }
 
 impl Io {
     pub fn plain() -> Io {
-        Io { rs: Sched::all(), ws: Sched::all(), rfaults: vec![], wfaults: vec![], ffaults: vec![] }
+        Io { rs: Sched::all(), ws: Sched::all(), rfaults: vec![], wfaults: vec![], ffaults: vec![], vectored: false }
     }
     pub fn new(rs: Sched, ws: Sched) -> Io {
-        Io { rs, ws, rfaults: vec![], wfaults: vec![], ffaults: vec![] }
+        Io { rs, ws, rfaults: vec![], wfaults: vec![], ffaults: vec![], vectored: false }
     }
     pub fn describe(&self) -> String {
         format!(
-            "reads={} writes={} rfaults={:?} wfaults={:?} ffaults={:?}",
+            "reads={} writes={}{} rfaults={:?} wfaults={:?} ffaults={:?}",
             self.rs.describe(),
             self.ws.describe(),
+            if self.vectored { " (native write_vectored)" } else { "" },
             self.rfaults,
             self.wfaults,
             self.ffaults
@@ -148,6 +151,7 @@ fn mk(input: &[u8], io: &Io) -> (ScriptedReader, ScriptedWriter, Log) {
     let mut w = ScriptedWriter::new(io.ws.clone(), &log);
     w.faults = io.wfaults.clone();
     w.flush_faults = io.ffaults.clone();
+    w.vectored = io.vectored;
     (r, w, log)
 }
 
